@@ -156,7 +156,7 @@ def main():
         commits = []
     m = {
         "version": 1,
-        "setup_cmd": "cd /verif/lean && lake build NloptModel nlopt_model",
+        "setup_cmd": "cd /verif && python3 tools/regen.py && cd lean && lake build NloptModel nlopt_model",
         "hooks": {
             "guard": "NLOPT_VERIF",
             "enable": "cmake -DCMAKE_C_FLAGS=-DNLOPT_VERIF -DCMAKE_CXX_FLAGS=-DNLOPT_VERIF -DBUILD_SHARED_LIBS=OFF (done by vlib/common.py build_repo into a content-hash-keyed scratch dir under /var/tmp/nlopt-verif-cache, rebuilt when absent)",
